@@ -453,7 +453,6 @@ func (db *ContractDB) loadFile(path, pkg string) error {
 				}
 			}
 			db.callguards = append(db.callguards, cg)
-			db.scan = append(db.scan, "callguard "+r)
 		case "writeonly":
 			// writeonly[Cxx,...] <pkg>.<Type>.<field> by <function> [, <function> ...]
 			wo := &WriteOnly{By: map[string]bool{}}
@@ -474,7 +473,6 @@ func (db *ContractDB) loadFile(path, pkg string) error {
 				}
 			}
 			db.writeonly = append(db.writeonly, wo)
-			db.scan = append(db.scan, "writeonly "+r)
 		case "axiom":
 			db.scan = append(db.scan, "axiom "+rest)
 		default:
